@@ -201,7 +201,10 @@ def sib_add(ctx: Ctx) -> List[Ob]:
             obs.append(ctx.tri("SIB-ADD", ["C07", "C04"], f, "add_child(tree, before=...): the top nodes are reversed only for a fixed index position", rn, ok,
                                "" if ok else f"`{texts}`: inserting every node before the same *node* already keeps their order; reversing first "
                                "adds them in reverse order (and before=False must not count as an index)"))
-        extra = set(tb) - set(want)
+        # (a case that spells out a documented value separately, with the documented action, is not an extra case)
+        spelled = {"before is None": "L.append(node)", "before is False": "L.append(node)", "before is None or before is False": "L.append(node)",
+                   "before is False or before is None": "L.append(node)"}
+        extra = {k for k in set(tb) - set(want) if not (k in spelled and tb[k] == spelled[k])}
         obs.append(ctx.ob("SIB-ADD", ["C04"], f, "no undocumented position case", None, not extra, "" if not extra else f"extra cases {sorted(extra)}"))
     return obs
 
